@@ -32,6 +32,7 @@ CANARIES = {
         ("tlp-colour-normalised", "stix2/markings/utils.py", "text", ['color = marking_obj["definition"]["tlp"]', 'color = marking_obj["definition"]["tlp"].strip()'], "C02.tlp"),
         ("boolean-socket-option", "stix2/v21/observables.py", "text", ["if isinstance(val, bool) or not isinstance(val, int):", "if not isinstance(val, int):"], "C02.constraints"),
         ("hash-regex-unicode-casefold", "stix2/hashes.py", "text", ["re.compile(re_str, re.I | re.A)", "re.compile(re_str, re.I)"], "C02.hash-regex"),
+        ("nan-passes-range-check", "stix2/properties.py", "text", ["        if not math.isfinite(value):\n", "        if False:\n"], "C02.clean-contract"),
     ],
     "C03": [
         ("revoked-default-flipped", "stix2/v21/sdo.py", "bool-flip", ["Indicator", "False -> True", "lambda: False"], "C03.table"),
